@@ -65,6 +65,21 @@ def gen_cases(rng, tier, scale):
         D = jtok(vals)
         ops += [f'r 0 {x("main")} {D} -1', f'r 2 {x("main")} {D} -1', f'r 0 {x("ctl")} {jtok({"c": [1, 2]})} -1', f'rt 4 {x(t)} {D} -1']
         cases.append({'line': f'u{k} ' + ' ; '.join(ops), 'kind': 'render', 'tpl': t, 'npre': len(parts) + 2, 'tags': ['indent-unicode']})
+    # acyclic nested partial blocks (layouts forwarding @partial-block): must terminate with a value or an error
+    from families.C09 import pb_gen, pb_eval, PBMissing
+    for k in range((40 if tier == 'quick' else 800) * scale):
+        for _try in range(50):
+            parts, t = pb_gen(rng)
+            try:
+                if len(pb_eval(parts, t)) <= 600:
+                    break
+            except PBMissing:
+                break
+        else:
+            continue
+        ops = [f'regs {x(n_)} {x(s_)}' for n_, s_ in parts.items()] + [f'regs {x("ctl")} {x(control)}', f'regs {x("main")} {x(t)}']
+        ops += [f'r 0 {x("main")} {{}} -1', f'r 2 {x("main")} {{}} -1', f'r 0 {x("ctl")} {jtok({"c": [1, 2]})} -1', f'rt 4 {x(t)} {{}} -1']
+        cases.append({'line': f'pb{k} ' + ' ; '.join(ops), 'kind': 'render', 'tpl': t, 'npre': len(parts) + 2, 'tags': ['partial-block-layouts']})
     return cases
 
 def key(tok):
